@@ -42,6 +42,7 @@ type rollWorld struct {
 	key    string
 	puid   string
 	checks bool
+	opt    ccOpt
 }
 
 func rollHook(ck *sim.Kind, cns string, genSel bool) world.HookFunc {
@@ -83,6 +84,7 @@ func newRollWorld(n int, cluster bool, child, method string, checks, genSel bool
 		tr := "True"
 		o.checks = map[string]v1alpha1.ChildUpdateStatusChecks{x.ck.Resource: {Conditions: []v1alpha1.StatusConditionCheck{{Type: "Ready", Status: &tr}}}}
 	}
+	x.opt = o
 	x.cworld = newCWorld(o, false)
 	p := kit.Obj(x.pk, x.pns, "p")
 	kit.Field(p, int64(n), "spec", "replicas")
